@@ -108,7 +108,8 @@ inductive Handler
 deriving DecidableEq, Repr
 
 /-- (method, path, handler); `/config/:opt` is the only parametrised path. Tied to the
-`router.Handle` calls of `newHTTPServer` by `Nsq.Tie.Proto.routes_eq`. -/
+`router.Handle`/`HandlerFunc` calls of `newHTTPServer` by `Nsq.Tie.ProtoHttp.routes_model` (the four
+`router.Handler(pprof.Handler(..))` registrations are not extracted and not modelled). -/
 def routeTable : List (String × String × Handler) := [
   ("GET", "/ping", .ping),
   ("GET", "/info", .info),
@@ -132,12 +133,8 @@ def routeTable : List (String × String × Handler) := [
   ("GET", "/debug/pprof/symbol", .external),
   ("POST", "/debug/pprof/symbol", .external),
   ("GET", "/debug/pprof/profile", .external),
-  ("GET", "/debug/pprof/heap", .external),
-  ("GET", "/debug/pprof/goroutine", .external),
-  ("GET", "/debug/pprof/block", .external),
   ("PUT", "/debug/setblockrate", .external),
-  ("POST", "/debug/freememory", .external),
-  ("GET", "/debug/pprof/threadcreate", .external)]
+  ("POST", "/debug/freememory", .external)]
 
 def configPrefix : Bytes := ascii "/config/"
 
